@@ -277,6 +277,18 @@ func c10Run(c c10Case) (string, c10Info) {
 	if (berr == nil) != (eerr == nil) {
 		return fmt.Sprintf("Eval error %v but EvalBytes error %v", eerr, berr), info
 	}
+	if berr == nil {
+		// the returned bytes are the caller's: later calls must not change them
+		keep := append([]byte{}, out...)
+		if e4, o4 := port.Compile(`{"another": "result", "of": [$, "a quite different length"]}`); o4 == nil {
+			evalBytesRaw(e4, []byte(`"x"`))
+			evalBytesRaw(e2, []byte(`{"a":[1,2,3],"b":"bbbbbbbbbbbbbbbbbbbbbbbbbbbbbbbbbbbbbbbbbbbbbbbbbbbbbbbbbbbbbbbb"}`))
+			evalBytesRaw(e4, []byte(`[]`))
+		}
+		if string(keep) != string(out) {
+			return fmt.Sprintf("the bytes returned by EvalBytes changed from %q to %q after later EvalBytes calls", keep, out), info
+		}
+	}
 	if eerr == nil {
 		want, _ := json.Marshal(res)
 		var a, b interface{}
